@@ -48,7 +48,7 @@ def cases(rng, tier):
         kind = rng.choice(gen.ALL_KINDS[:-1])
         need = 2 if kind in gen.PARAM2 + gen.NOPARAM2 else (1 if kind in gen.PARAM1 + ["u2", "u3"] else rng.choice([1, 2, 3]))
         bits = rng.sample(range(top + 1), need)
-        if rng.random() < 0.5:
+        if rng.random() < 0.5 and top not in bits:
             bits[0] = top
         m = sum(1 << b for b in bits)
         n = top + 1
